@@ -10,9 +10,9 @@ VERIF = os.path.dirname(os.path.dirname(os.path.abspath(__file__)))
 STAGES = {
     "C01": [("solversim", {"derive_prob": 0.12, "derive_grammar_prob": 0.4, "focus": "C01"}, 240)],
     "C02": [("solversim", {"unsat_prob": 0.45, "clock_op_prob": 0.22, "fault_bias": {"fault_free_prob": 0.2, "z3_slow": 5, "clk_jump_fwd": 3}, "derive_prob": 0.12, "derive_grammar_prob": 0.4, "focus": "C02"}, 240)],
-    "C18": [("solversim", {"api_ops": True, "families": ["ambig", "ambig", "signed", "csv", "config"], "families_prob": 0.45, "focus": "C18"}, 200)],
+    "C18": [("solversim", {"api_ops": True, "families": ["ambig", "ambig", "signed", "csv", "config", "nullable", "nullable", "nullable"], "families_prob": 0.55, "focus": "C18"}, 200)],
     "C12": [("choicesim", {"focus": "C12", "cases": 24}, 160), ("solversim", {"focus": "C12", "derive_prob": 0.3, "derive_grammar_prob": 0.6}, 120)],
-    "C14": [("choicesim", {"focus": "C14", "cases": 24}, 160), ("solversim", {"focus": "C14", "derive_prob": 0.3, "derive_grammar_prob": 0.6}, 120)],
+    "C14": [("choicesim", {"focus": "C14", "cases": 24}, 160), ("solversim", {"focus": "C14", "derive_prob": 0.3, "derive_grammar_prob": 0.6, "families": ["signed", "signed", "config", "lenprefix", "expr", "csv"], "families_prob": 0.6}, 120)],
     "C16": [("treesim", {"focus": "C16", "examples": 40, "steps": 30}, 96)],
     "C17": [("treesim", {"focus": "C17", "examples": 40, "steps": 30}, 96)],
     "C19": [("clisim", {}, 220)],
